@@ -321,3 +321,144 @@ def run_impl(graphs, lchDs, per_db=30, procs=None):
         with mp.get_context('fork').Pool(procs) as pool:
             outs = pool.map(_impl_chunk, chunks, chunksize=1)
     return [o for out in outs for o in out]
+
+
+# ---------------------------------------------------------------------------
+# information-content scenarios (C14 res/jcn/lin, C15)
+
+IC_POS = ('n', 'v', 'a', 'r')
+
+
+def fold(p):
+    return 'a' if p == 's' else p
+
+
+def random_ic_scenario(rng, nmax=8, allow_sat=True):
+    g = random_graph(rng, nmax)
+    n = g['n']
+    cls = rng.choice(['n', 'n', 'v', 'as', 'r'] if allow_sat else ['n', 'n', 'v', 'a', 'r'])
+    g['pos'] = [rng.choice(['a', 's']) if cls == 'as' else cls for _ in range(n)]
+    vocab = {}
+    for i in range(n):
+        if rng.random() < 0.9:
+            vocab.setdefault(f'w{i}', []).append(i)
+    for k in range(rng.randint(0, 3)):       # ambiguous words (several synsets)
+        nodes = sorted(set(rng.sample(range(n), rng.randint(1, min(n, 3)))))
+        vocab[f'amb{k}'] = nodes
+    if rng.random() < 0.4:                   # a multi-word form
+        vocab['two words'] = [rng.randrange(n)]
+    g['words'] = vocab
+    toks = list(vocab) + ['unknown1', 'unknown2']
+    corpus = [rng.choice(toks) for _ in range(rng.randint(0, 12))]
+    smoothing = rng.choice([(1, 1), (1, 1), (1, 2), (2, 1), (0, 1), (1, 4)])
+    mode = rng.choice(['corpus', 'corpus', 'arbitrary'])
+    sc = {'graph': g, 'corpus': corpus, 'distribute': rng.random() < 0.5,
+          'smoothing': list(smoothing), 'mode': mode}
+    if mode == 'arbitrary':
+        sc['weights'] = [[rng.randint(1, 12), rng.choice([1, 2, 4, 3])] for _ in range(n)]
+        sc['total'] = [rng.randint(1, 40), rng.choice([1, 2])]
+    return sc
+
+
+def ic_model_request(sc):
+    g = sc['graph']
+    req = {'op': 'ic', 'n': g['n'], 'hyp': hyp_lists(g), 'pos': g['pos']}
+    if sc['mode'] == 'arbitrary':
+        req['weights'] = sc['weights']
+        req['totals'] = {p: sc['total'] for p in IC_POS}
+    else:
+        counts = {}
+        for t in sc['corpus']:
+            counts[t] = counts.get(t, 0) + 1
+        req['words'] = [[c, g['words'].get(t, [])] for t, c in counts.items()]
+        req['distribute'] = sc['distribute']
+        req['smoothing'] = sc['smoothing']
+    return req
+
+
+def observe_ic(wn, lexid, sc):
+    import wn.ic
+    import wn.similarity as sim
+    g = sc['graph']
+    n = g['n']
+    w = wn.Wordnet(lexicon=f'{lexid}:1')
+    ss = [w.synset(f'{lexid}-{i}') for i in range(n)]
+    if sc['mode'] == 'arbitrary':
+        freq = {p: {None: sc['total'][0] / sc['total'][1]} for p in IC_POS}
+        for i in range(n):
+            p = fold(g['pos'][i])
+            if p in freq:
+                freq[p][ss[i].id] = sc['weights'][i][0] / sc['weights'][i][1]
+    else:
+        freq = wn.ic.compute(sc['corpus'], w, distribute_weight=sc['distribute'],
+                             smoothing=sc['smoothing'][0] / sc['smoothing'][1])
+    out = {'node': [freq.get(fold(g['pos'][i]), {}).get(ss[i].id) for i in range(n)],
+           'total': {p: freq[p][None] for p in IC_POS},
+           'keys': {p: sorted(k for k in freq[p] if k is not None) for p in IC_POS}}
+    pairs = []
+    for a in ss:
+        for b in ss:
+            e = {}
+            for nm, fn in (('res', sim.res), ('jcn', sim.jcn), ('lin', sim.lin)):
+                try:
+                    e[nm] = fn(a, b, freq)
+                except wn.Error:
+                    e[nm] = 'error'
+                except (ZeroDivisionError, ValueError, KeyError) as ex:
+                    e[nm] = 'exc:' + type(ex).__name__
+            pairs.append(e)
+    out['pairs'] = pairs
+    # probabilities / information content through the public functions
+    probs = []
+    for x in ss:
+        try:
+            probs.append(wn.ic.synset_probability(x, freq))
+        except (KeyError, ZeroDivisionError) as ex:
+            probs.append('exc:' + type(ex).__name__)
+    out['prob'] = probs
+    return out
+
+
+def _impl_ic_chunk(chunk):
+    import wnenv
+    wn = wnenv.wn
+    wnenv.fresh_db()
+    d = wnenv.workdir()
+    try:
+        f = d / 'graphs.xml'
+        f.write_text(pack([sc['graph'] for sc in chunk]), encoding='utf-8')
+        wn.add(f, progress_handler=None)
+        res = []
+        for k, sc in enumerate(chunk):
+            try:
+                res.append(observe_ic(wn, f'g{k}', sc))
+            except Exception as e:
+                import traceback
+                res.append({'exception': repr(e), 'tb': traceback.format_exc()[-800:]})
+        return res
+    finally:
+        import shutil
+        shutil.rmtree(d, ignore_errors=True)
+        wnenv.cleanup()
+
+
+def run_impl_ic(scs, per_db=25, procs=None):
+    import multiprocessing as mp
+    chunks = [scs[i:i + per_db] for i in range(0, len(scs), per_db)]
+    if not chunks:
+        return []
+    procs = procs or min(14, len(chunks))
+    if procs <= 1:
+        outs = [_impl_ic_chunk(c) for c in chunks]
+    else:
+        with mp.get_context('fork').Pool(procs) as pool:
+            outs = pool.map(_impl_ic_chunk, chunks, chunksize=1)
+    return [o for out in outs for o in out]
+
+
+def close(a, b, rel=1e-9):
+    if isinstance(a, str) or isinstance(b, str) or a is None or b is None:
+        return a == b
+    if math.isinf(a) or math.isinf(b):
+        return a == b
+    return abs(a - b) <= rel * max(1.0, abs(a), abs(b))
